@@ -68,9 +68,12 @@ def recv_case(rnd, host, nblocks_sizes, corrupt):
             chunks.append(bytes([ENQ]))
             if not rig.settle():
                 raise common.Wedged("no rest after ENQ")
+            slow = rnd.random() < 0.5          # let the receiver block between the pieces
             for ch in chunked(rnd, blk):
                 rig.conn.feed(ch)
                 chunks.append(ch)
+                if slow:
+                    rig.settle()
             if not rig.settle():
                 raise common.Wedged("no rest after the block")
             del start
